@@ -283,6 +283,52 @@ impl BinCtx {
     pub fn exec(&mut self, toks: &[&str]) {
         match toks {
             ["boot", rest @ ..] => self.boot(rest),
+            ["bootocc", n, k, src] => {
+                // N listen addresses of which the K-th cannot be bound (another process holds the port).
+                // The server either refuses to start or serves on EVERY address it was given; running on
+                // the rest while saying nothing is neither.
+                let n: usize = n.parse().unwrap();
+                let k: usize = k.parse().unwrap();
+                let holder = TcpListener::bind("127.0.0.1:0").expect("holder");
+                let held = holder.local_addr().unwrap().port();
+                let list: Vec<String> = (0..n).map(|i| format!("127.0.0.1:{}", if i == k { held } else { free_port() })).collect();
+                self.kill();
+                let mut cmd = Command::new(&self.bin);
+                cmd.env_clear().env("RUST_LOG", "error").env("PATH", "/usr/bin:/bin");
+                cmd.arg("--data-dir").arg(self.h.l1.data_dir());
+                match *src {
+                    "flag" => { cmd.arg("--listen").arg(list.join(",")); }
+                    "flags" => { for a in &list { cmd.arg("--listen").arg(a); } }
+                    _ => { cmd.env("LISTEN", list.join(",")); }
+                }
+                cmd.stdin(Stdio::null()).stdout(Stdio::null()).stderr(Stdio::null());
+                let mut child = cmd.spawn().expect("spawn server");
+                // give it time to either come up or give up
+                let deadline = Instant::now() + Duration::from_secs(6);
+                let mut exited = false;
+                let mut served = 0;
+                loop {
+                    if let Ok(Some(_)) = child.try_wait() {
+                        exited = true;
+                        break;
+                    }
+                    served = list.iter().enumerate().filter(|(i, a)| *i != k && TcpStream::connect(a.as_str()).is_ok()).count();
+                    if served == n - 1 || Instant::now() > deadline {
+                        // one more moment: a server that is about to exit because of the bind failure
+                        std::thread::sleep(Duration::from_millis(300));
+                        if let Ok(Some(_)) = child.try_wait() {
+                            exited = true;
+                        }
+                        break;
+                    }
+                    std::thread::sleep(Duration::from_millis(30));
+                }
+                let _ = child.kill();
+                let _ = child.wait();
+                drop(holder);
+                self.h.l1.out.push(format!("OP mark bootocc n={n} k={k} src={src} exited={} served={}", exited as u8, if exited { 0 } else { served }));
+                self.h.l1.out.push("R mark".into());
+            }
             ["kill"] => {
                 self.conns.clear();
                 self.kill();
